@@ -121,6 +121,7 @@ type IdP struct {
 	Path   string // path prefix for endpoints
 	// AuthQuery is a query the authorization endpoint itself carries (C13).
 	AuthQuery string
+	SharedDisc bool
 	// ServerCA selects which test CA issued the certificate the https server presents (C20).
 	ServerCA int
 
@@ -169,7 +170,12 @@ func (p *IdP) base() string {
 func (p *IdP) AuthorizeURL() string { return p.base() + "/authorize" + p.AuthQuery }
 func (p *IdP) TokenURL() string     { return p.base() + "/token" }
 func (p *IdP) JWKSURL() string      { return p.base() + "/jwks" }
-func (p *IdP) DiscoveryURL() string { return p.base() + "/.well-known/openid-configuration" }
+func (p *IdP) DiscoveryURL() string {
+	if p.SharedDisc {
+		return p.Scheme + "://" + strings.TrimSuffix(strings.TrimSuffix(p.Host, ":80"), ":443") + "/.well-known/openid-configuration?p=" + p.Name
+	}
+	return p.base() + "/.well-known/openid-configuration"
+}
 func (p *IdP) EndSessionURL() string {
 	return p.base() + "/end-session"
 }
